@@ -27,35 +27,10 @@ pub fn check(c: &Case) -> Verdict {
         Ok(x) => x,
         Err(e) => return Verdict::fail(format!("indented serialization failed: {} (plain succeeded: {:?})", e, plain)),
     };
-    // byte level: same tokens; the indented document may only have extra blank text made of a
-    // newline and indent characters, directly before markup that does not follow text
-    let tp = refxml::lex(plain.as_bytes());
-    let ti = refxml::lex(ind.as_bytes());
-    let pb = plain.as_bytes();
-    let ib = ind.as_bytes();
-    let (mut a, mut b) = (0usize, 0usize);
-    let mut insertions = 0;
-    let mut after_text = false;
-    while b < ti.len() {
-        let tok_i = &ib[ti[b].start..ti[b].end];
-        if a < tp.len() && &pb[tp[a].start..tp[a].end] == tok_i {
-            after_text = matches!(tp[a].tok, Tok::Text(_) | Tok::CData(_));
-            a += 1;
-            b += 1;
-            continue;
-        }
-        let is_indent = matches!(ti[b].tok, Tok::Text(_)) && tok_i.first() == Some(&b'\n') && tok_i[1..].iter().all(|x| *x == c.indent.0 as u8);
-        let next_is_markup = ti.get(b + 1).map_or(false, |l| !matches!(l.tok, Tok::Text(_) | Tok::CData(_)));
-        if is_indent && next_is_markup && !after_text {
-            insertions += 1;
-            b += 1;
-            continue;
-        }
-        return Verdict::fail(format!("indented output differs from the plain output by more than newline+indent before markup (token {:?}{}): plain {:?} | indented {:?}", String::from_utf8_lossy(tok_i), if after_text { ", directly after text" } else { "" }, plain, ind));
-    }
-    if a != tp.len() {
-        return Verdict::fail(format!("indented output lacks tokens of the plain output: plain {:?} | indented {:?}", plain, ind));
-    }
+    let insertions = match indent_rule(&plain, &ind, c.indent.0) {
+        Ok(n) => n,
+        Err(m) => return Verdict::fail(m),
+    };
     let ty = c.value.ty();
     let vp = ty.from_str(&plain);
     let vi = ty.from_str(&ind);
@@ -72,14 +47,90 @@ pub fn check(c: &Case) -> Verdict {
     v
 }
 
+
+/// byte level: same tokens; the indented document may only have extra blank text made of a
+/// newline and indent characters, directly before markup that does not follow text
+pub fn indent_rule(plain: &str, ind: &str, indent_char: char) -> Result<u32, String> {
+    let tp = refxml::lex(plain.as_bytes());
+    let ti = refxml::lex(ind.as_bytes());
+    let pb = plain.as_bytes();
+    let ib = ind.as_bytes();
+    let (mut a, mut b) = (0usize, 0usize);
+    let mut insertions = 0;
+    let mut after_text = false;
+    while b < ti.len() {
+        let tok_i = &ib[ti[b].start..ti[b].end];
+        if a < tp.len() && &pb[tp[a].start..tp[a].end] == tok_i {
+            after_text = matches!(tp[a].tok, Tok::Text(_) | Tok::CData(_));
+            a += 1;
+            b += 1;
+            continue;
+        }
+        let is_indent = matches!(ti[b].tok, Tok::Text(_)) && tok_i.first() == Some(&b'\n') && tok_i[1..].iter().all(|x| *x == indent_char as u8);
+        let next_is_markup = ti.get(b + 1).map_or(false, |l| !matches!(l.tok, Tok::Text(_) | Tok::CData(_)));
+        if is_indent && next_is_markup && !after_text {
+            insertions += 1;
+            b += 1;
+            continue;
+        }
+        return Err(format!("indented output differs from the plain output by more than newline+indent before markup (token {:?}{}): plain {:?} | indented {:?}", String::from_utf8_lossy(tok_i), if after_text { ", directly after text" } else { "" }, plain, ind));
+    }
+    if a != tp.len() {
+        return Err(format!("indented output lacks tokens of the plain output: plain {:?} | indented {:?}", plain, ind));
+    }
+    Ok(insertions)
+}
+
+// values outside the round-trippable family (hand-written Serialize over a dynamic value: `$text` /
+// `$value` fields next to empty sequences, tuples with units, options, maps): only the byte-level rule
+#[derive(Clone, Debug, Serialize, Deserialize, PartialEq)]
+pub struct DynCase {
+    pub dynamic: crate::dynval::Dyn,
+    pub level: u8,
+    pub indent: (char, u8),
+    pub expand_empty: bool,
+}
+
+pub fn check_dyn(c: &DynCase) -> Verdict {
+    let plain_o = SerOpts { level: c.level % 3, indent: None, expand_empty: c.expand_empty, root: Some("root".to_string()) };
+    let ind_o = SerOpts { indent: Some(c.indent), ..plain_o.clone() };
+    let plain = ser(&crate::dynval::DynXml(&c.dynamic), &plain_o);
+    let ind = ser(&crate::dynval::DynXml(&c.dynamic), &ind_o);
+    let (plain, ind) = match (plain, ind) {
+        (Ok(p), Ok(i)) => (p, i),
+        (Err(_), Err(_)) => return Verdict::excluded("value-rejected-by-the-serializer"),
+        (p, i) => return Verdict::fail(format!("indentation decides whether the value can be serialized: plain {:?}, indented {:?} | value {:?}", p.map_err(|e| e.to_string()), i.map_err(|e| e.to_string()), c.dynamic)),
+    };
+    match indent_rule(&plain, &ind, c.indent.0) {
+        Ok(n) => Verdict::pass(n > 0).class("serde-dynamic-value"),
+        Err(m) => {
+            if c.dynamic.has_empty_sequence_item() {
+                // finding F19: an item of an element list that is itself an empty sequence writes nothing,
+                // yet the list asks for an indent after it
+                let mut v = Verdict::pass(true).class("serde-dynamic-value");
+                v.known.push(F19);
+                return v;
+            }
+            Verdict::fail(format!("{} | value {:?}", m, c.dynamic))
+        }
+    }
+}
+pub const F19: &str = "F19-empty-sequence-as-item-of-an-element-list-switches-indentation-on";
+
 pub fn run(ctx: &Ctx) {
     let strat = || {
         Box::new((prop_oneof![2 => any_val(), 1 => val_of(Ty::MixedList), 1 => val_of(Ty::ChoiceHolder)], 0u8..3, (prop::sample::select(vec![' ', '\t']), 0u8..6), any::<bool>()).prop_map(|(value, level, indent, expand_empty)| Case { value, level, indent, expand_empty }))
     };
     ctx.run_proptest_with("serde-indentation", ctx.tier.pick(400_000, 5_000_000), strat, check);
+    let dstrat = || Box::new((crate::dynval::dyn_strategy(), 0u8..3, (prop::sample::select(vec![' ', '\t']), 0u8..6), any::<bool>()).prop_map(|(dynamic, level, indent, expand_empty)| DynCase { dynamic, level, indent, expand_empty }));
+    ctx.run_proptest_with("serde-indentation-of-dynamic-values", ctx.tier.pick(400_000, 5_000_000), dstrat, check_dyn);
 }
 
 pub fn replay(case: &Value) -> Result<Verdict, String> {
+    if case.get("dynamic").is_some() {
+        let c: DynCase = serde_json::from_value(case.clone()).map_err(|e| e.to_string())?;
+        return Ok(check_dyn(&c));
+    }
     let c: Case = serde_json::from_value(case.clone()).map_err(|e| e.to_string())?;
     Ok(check(&c))
 }
